@@ -75,6 +75,8 @@ class Target:
         self.prio = False
         self.filters = False
         self.raw_tuple = False
+        if kind in ("rprs", "rrs", "filter", "filter_td") and random.Random(repr((kind, cap, rng.random()))).random() < 0.25:
+            cap = float(cap)      # the documented default capacity is float('inf'): a finite capacity may be a float as well (2.0)
         self.params = {"cap": cap}
         if kind == "rprs":
             from factorysimpy.base.reservable_priority_req_store import ReservablePriorityReqStore as S
